@@ -99,8 +99,11 @@ def systematic(kinds, per_kind=None, stride=1, offset=0):
             if pick not in en:
                 break
             k = en.index(pick)
+            # a fruitless poll (empty get_nowait, sleep) leaves the state as it was: deviating there repeats the
+            # deviations of the step before
+            poll = (lab[0] == "getnw" and lab[-1] == "E") or lab[0] == "sleep"
             for j in range(len(en)):
-                if j != k:
+                if j != k and not poll:
                     ndev += 1
                     if (ndev + offset) % stride:
                         continue
@@ -209,7 +212,7 @@ def concurrent_check(res, pid, cone, kinds, n_quick, n_thorough, oracle, known, 
                          "calls": [{"raises": False}, {"raises": False}][:len(ops) - 1], "ops": ops,
                          "schedule": lockstep.gen_schedule(res.rng, 600), "step_limit": 1500}
                     directed.append(("cblock", c))
-        # quick: the first program of each kind, every 4th deviation (which quarter depends on the seed);
+        # quick: the first program of each kind, every 3rd deviation (which third depends on the seed);
         # thorough: every program, every deviation
         if "dep" in kinds:
             # a finished future passed twice, followed by an independent call, on a single worker behind the resolver
@@ -218,7 +221,7 @@ def concurrent_check(res, pid, cone, kinds, n_quick, n_thorough, oracle, known, 
                                          "calls": [{"raises": False}, {"raises": False, "deps": [1, 1]}, {"raises": False}],
                                          "ops": [["submit", 1], ["result", 1], ["submit", 2], ["submit", 3], ["result", 3],
                                                  ["shutdown", True, False]], "schedule": sch, "step_limit": 4000}))
-        syst = systematic(kinds, per_kind=1, stride=4, offset=res.seed % 4) if res.tier == "quick" else systematic(kinds)
+        syst = systematic(kinds, per_kind=1, stride=3, offset=res.seed % 3) if res.tier == "quick" else systematic(kinds)
         runs = explore(res, kinds, n, allow_fail, extra_cases=corpus + directed + syst)
         res.cov["corpus_cases"] = len(corpus)
         res.cov["systematic_schedules"] = len(syst)
